@@ -58,10 +58,23 @@ def repo_hash(repo=None):
                 h.update(fh.read())
             h.update(b'\0')
             n += 1
-    for tool in (DRV, TPL):
-        if os.path.exists(tool):
-            h.update(_file_hash(tool).encode())
+    # the MIR facts depend on the tree and on the driver; the syntax facts (tpl-*.json inside the same directory) are keyed by the
+    # extractor's own hash, so that a change of zl-tpl re-runs only zl-tpl.  `.cache/key_salt` (untracked, optional) keeps a local cache
+    # filled under the former keying (tree + driver + extractor) usable.
+    if os.path.exists(DRV):
+        h.update(_file_hash(DRV).encode())
+    salt = os.path.join(CACHE, 'key_salt')
+    if os.path.exists(salt):
+        h.update(open(salt).read().strip().encode())
     return h.hexdigest()[:20], n
+
+
+def tpl_file(base):
+    th = _file_hash(TPL) if os.path.exists(TPL) else 'none'
+    salt = os.path.join(CACHE, 'key_salt')
+    if os.path.exists(salt) and open(salt).read().strip() == th:
+        return os.path.join(base, 'tpl.json')
+    return os.path.join(base, 'tpl-%s.json' % th[:12])
 
 
 def nightly_sysroot():
@@ -136,7 +149,7 @@ def ensure(cfgs=('full',), repo=None):
             if missing:
                 raise CheckError('driver produced no facts for %s (config %s) -- see %s' % (missing, cfg, log))
             open(os.path.join(d, 'DONE'), 'w').write(str(time.time()))
-        tplf = os.path.join(base, 'tpl.json')
+        tplf = tpl_file(base)
         if not os.path.exists(tplf):
             tmp = tplf + '.tmp'
             p = subprocess.run([TPL, repo, tmp, 'zlink-macros/src', 'zlink-codegen/src', 'zlink-core/src',
@@ -194,7 +207,7 @@ class Facts:
     @property
     def tpl(self):
         if self._tpl is None:
-            with open(os.path.join(self.base, 'tpl.json')) as f:
+            with open(tpl_file(self.base)) as f:
                 self._tpl = Tpl(json.load(f))
         return self._tpl
 
